@@ -216,7 +216,7 @@ def slice_with_newaxes(out_name, in_name, blockdims, index):
                     continue
                 if isinstance(v.args[1], TaskRef):
                     # positional indexing with newaxis
-                    indexer = expand_orig(dsk[v.args[1].key].value[1], None)
+                    indexer = expand(dsk[v.args[1].key].value[1], None)
                     tok = "shuffle-taker-" + tokenize(indexer)
                     dsk2[tok] = DataNode(tok, (1, indexer))
                     arg = TaskRef(tok)
